@@ -12,7 +12,7 @@
  "assumptions": [
   "network_read / network_ssl_read = their C06 contracts (models/net_netapi.c); events_immediate_register per models/net_events.c",
   "memmove = models/net_mem.c: sound over-approximation (arbitrary bytes) exact at the ghost offset g_mm_k = g_nb_idx; memcpy/malloc/free = CBMC built-ins",
-  "object-size parameter: reader buffer <= NB_MAXOBJ (32) bytes, wait length <= 2*NB_MAXOBJ; the real initial size 4096 only enters through netbuf_read_init2"
+  "object-size parameter: reader buffer <= NB_MAXOBJ (2^20) bytes, wait length <= 2*NB_MAXOBJ; the real initial size 4096 only enters through netbuf_read_init2"
  ]
 }
 */
